@@ -151,6 +151,7 @@ def run(ck, fb, fbd):
     comps = ("clang++", "g++") if ck.tier == "thorough" else ("clang++",)
     compile_witness(ck, "C08.witness", "c08_handles.cc", extra_flags=("-DVERIF_RANGE=%d" % rng,), compilers=comps, steps=2000000000)
     mirror(ck, fb)
+    orient(ck, fb)
 
 
 def algebra(ck, fb):
@@ -341,3 +342,101 @@ def mirror(ck, fb):
     texts = [estr(f.resolve(x["a"])).replace(" ", "") for b, i, x in ae]
     ok = len(ae) == 2 and any("*it,*(it+1)" in t for t in texts) and any("*it,*" in t and "begin()" in t for t in texts)
     (ck.ok if ok else lambda r, w, t: ck.violate(r, w, t, "C08.closed:pairs"))("C08.closed", f.where, "add_face(vertices) connects every consecutive pair and the last vertex with the first (%s)" % texts)
+
+
+# ---------------------------------------------------------------------------------------------------------------
+def is_hfh_strip(f, n):
+    """n is a conversion halfface handle -> face handle: h.face_handle() / face_handle(h) with h of type HFH"""
+    if not (isinstance(n, dict) and n.get("k") == "call" and n.get("pn", n.get("n", "")).split("::")[-1] == "face_handle"):
+        return False
+    src = n.get("r") if n.get("r") is not None else (n.get("a") or [None])[0]
+    src = unwrap(src)
+    t = (src or {}).get("t") or (src or {}).get("rt") or ""
+    if isinstance(src, dict) and src.get("k") == "call":
+        t = src.get("rt") or src.get("t") or ""
+    return "HFH" in t or "HalfFaceHandle" in t or t == ""
+
+
+def orientation_aware(f):
+    """f branches on the sub-index of some handle: h.subidx(), h.idx() & 1, h.idx() % 2"""
+    for b in f.reach():
+        t = f.term(b)
+        if not t or not t.get("cond"):
+            continue
+        for y in walk(f.resolve(t["cond"])):
+            if not isinstance(y, dict):
+                continue
+            if y.get("k") == "call" and y.get("pn", y.get("n", "")).split("::")[-1] in ("subidx", "is_even", "is_odd"):
+                return True
+            if y.get("k") == "bin" and y.get("op") in ("&", "%") and any(isinstance(z, dict) and z.get("k") == "call" and z.get("pn", z.get("n", "")).split("::")[-1] in ("idx", "uidx") for z in walk(y)):
+                return True
+    return False
+
+
+def orient(ck, fb):
+    """no orientation stripping: the stored halfedge list of a face is the list of its halfface 0; code that reaches it
+    from a halfface handle (face(h.face_handle()).halfedges(), faces_[...]) and uses its order has to look at the sub-index"""
+    from .rule_g import iter_sites
+    ck.rule("C08.orient", "the ordered halfedge list of the *face* is reached from a halfface handle only by code that branches on the handle's sub-index (or that merely hands the list on / takes its size): anything else treats the odd halfface as if it had the even one's rotation")
+    helpers = {}  # function id -> True when it only returns the stripped list
+    sites = []
+    for f in fb.repo_fns():
+        if not f.has_cfg or "/src/OpenVolumeMesh/" not in f.file:
+            continue
+        for n, parents, pos in iter_sites(f):
+            if not (isinstance(n, dict) and n.get("k") in ("call", "idx")):
+                continue
+            if n.get("k") == "call":
+                if n.get("pn", "") not in ("OpenVolumeMesh::TopologyKernel::face",) or not n.get("a"):
+                    continue
+                arg = n["a"][0]
+            else:
+                base = unwrap(n.get("b"))
+                if not (isinstance(base, dict) and base.get("k") == "mem" and base.get("f") == "faces_"):
+                    continue
+                arg = n.get("i")
+            if not any(is_hfh_strip(f, y) for y in walk(arg)):
+                continue
+            # how is the Face used?
+            use = "other"
+            ps = [p for p in parents if isinstance(p, dict) and p.get("k") not in ("upcast", "defarg", "definit", "cast", "ctor") and "k" in p]
+            chain = list(reversed(ps))
+            if chain and chain[0].get("k") == "call" and chain[0].get("pn", "").split("::")[-1] == "halfedges":
+                use = "list"
+                if len(chain) > 1 and chain[1].get("k") == "call" and chain[1].get("pn", "").split("::")[-1] in ("size", "empty"):
+                    use = "count"
+                elif len(chain) > 1 and chain[1].get("k") == "ret":
+                    use = "returned"
+            elif chain and chain[0].get("k") == "ret":
+                use = "returned"
+            sites.append((f, n, pos, use))
+    ck.analysed["orientation_stripping_sites"] = len(sites)
+    ck.floor("orientation_stripping_sites", len(sites), 3)
+    for f, n, pos, use in sites:
+        if use == "returned" and len([x for x in f.tops() if x[2].get("k") == "ret"]) == 1:
+            helpers[f.id] = f
+    for f, n, pos, use in sites:
+        if use == "count":
+            ck.ok("C08.orient", f.loc(n), "%s only takes the size of the face's list" % f.pq.split("OpenVolumeMesh::")[-1])
+            continue
+        if f.id in helpers and use == "returned":
+            continue
+        ok = orientation_aware(f)
+        (ck.ok if ok else lambda r, w, t: ck.violate(r, w, t, "C08.orient:%s" % f.pq))("C08.orient", f.loc(n), "%s reaches the face's stored list from a halfface handle (%s) and branches on the sub-index" % (f.pq.split("OpenVolumeMesh::")[-1], estr(n)[:60]))
+    # users of the hand-on helpers
+    for hid, h in helpers.items():
+        users = {}
+        for g, b, i, x in fb.callers(hid):
+            if not g.has_cfg:
+                continue
+            users.setdefault(g.id, [g, []])[1].append(x)
+        for gid, (g, calls) in users.items():
+            count_only = True
+            for n, parents, pos in iter_sites(g):
+                if isinstance(n, dict) and n.get("k") == "call" and n.get("u") == hid:
+                    ps = [p for p in parents if isinstance(p, dict) and p.get("k") not in ("upcast", "defarg", "definit", "cast", "ctor") and "k" in p]
+                    par = ps[-1] if ps else None
+                    if not (par is not None and par.get("k") == "call" and par.get("pn", "").split("::")[-1] in ("size", "empty")):
+                        count_only = False
+            ok = count_only or orientation_aware(g)
+            (ck.ok if ok else lambda r, w, t: ck.violate(r, w, t, "C08.orient:%s" % g.pq))("C08.orient", g.where, "%s uses %s() (the face's stored list reached from a halfface handle) %s" % (g.pq.split("OpenVolumeMesh::")[-1], h.name, "for its size only" if count_only else "and branches on the sub-index"))
